@@ -20,6 +20,7 @@ import (
 	"fmt"
 	"io"
 	"os"
+	"os/exec"
 	"path/filepath"
 	"sort"
 	"strings"
@@ -697,6 +698,7 @@ func TestC13(t *testing.T) {
 			}
 		}
 	}
+	c13RaceCompanion(R)
 	R.Finish(t)
 }
 
@@ -706,4 +708,35 @@ func c13Popc(x int) int {
 		n++
 	}
 	return n
+}
+
+// c13RaceCompanion runs TestRaceC13Cmd (c13_race_test.go) on the unrewritten commands with -race.
+// It can only ever report true races (or a functional failure of that run); auxiliary, not the deciding step.
+func c13RaceCompanion(R *ev.Run) {
+	ov, repo := os.Getenv("VERIF_OVERLAY_PLAIN"), os.Getenv("VERIF_REPO")
+	if os.Getenv("VERIF_NO_RACE") != "" || ov == "" || repo == "" || os.Getenv("C13_RACE_CHILD") != "" {
+		return
+	}
+	args := []string{"test", "-race", "-tags", "verif", "-vet=off", "-overlay", ov, "-count=1", "-run", "^TestRaceC13Cmd$", "."}
+	if mf := os.Getenv("VERIF_REPO_MODFILE"); mf != "" {
+		args = append([]string{"test", "-modfile=" + mf}, args[1:]...)
+	}
+	cmd := exec.Command("go", args...)
+	cmd.Dir = repo
+	cmd.Env = append(os.Environ(), "CGO_ENABLED=1", "C13_RACE_CHILD=1")
+	out, err := cmd.CombinedOutput()
+	so := string(out)
+	res := map[string]any{"cmd": "go " + strings.Join(args, " "), "ok": err == nil}
+	if strings.Contains(so, "WARNING: DATA RACE") {
+		res["race"] = true
+		R.Violation("race:commands-over-several-inputs", map[string]any{"output": ev.Trunc(so, 3000)})
+	} else if err != nil {
+		res["error"] = ev.Trunc(so, 1500)
+		if strings.Contains(so, "--- FAIL") {
+			R.Violation("race-companion:functional-failure", map[string]any{"output": ev.Trunc(so, 3000)})
+		} else {
+			R.Cap("race companion could not run: " + ev.Trunc(so, 300))
+		}
+	}
+	R.Set("race_companion", res)
 }
